@@ -111,7 +111,7 @@ pub fn execute(ctx: &mut Ctx, lines: &[String]) -> Vec<(Vec<String>, Vec<String>
                 drop(handle);
                 drop(w);
                 // observation: files in reading order, split into lines
-                let f = Flw { dir: dir.clone(), spec: spec.clone(), cfg: cfg.clone(), w: None, mode: wmode, bg_cleanup: false, foreign: vec![], moved: 0, old_current_tokens: vec![], moved_names: vec![], foreign_content: Default::default(), via_logger: false, lg: None, errchan: Default::default() };
+                let f = Flw { dir: dir.clone(), spec: spec.clone(), cfg: cfg.clone(), w: None, mode: wmode, bg_cleanup: false, foreign: vec![], moved: 0, old_current_tokens: vec![], moved_names: vec![], foreign_content: Default::default(), via_logger: false, lg: None, errchan: Default::default(), truncating: false };
                 let order = f.reading_order();
                 let mut all: Vec<u8> = Vec::new();
                 for n in &order { all.extend(read_file(&dir.join(n))); }
